@@ -172,12 +172,10 @@ def RtCtx.onDemandAlloc (c : RtCtx) (σ : CState) (i : Nat) : CState :=
     else σ
   else σ
 
-/-- Allocation in front of a string assignment: in `start()` the on-demand buffer of a string
-    without default is allocated unconditionally, otherwise the usual guard applies. -/
-def RtCtx.setStrAlloc (c : RtCtx) (σ : CState) (isStart : Bool) (i : Nat) : CState :=
-  if c.realloc i && isStart && !(c.hasDefault i) then
-    σ.setStr i { σ.str i with alloc := .heap, bytes := Array.replicate (c.ty i).size none }
-  else c.onDemandAlloc σ i
+/-- Allocation in front of a string assignment: the usual guard, in `start()` as well (the pointer
+    of an on-demand string without default has been set to NULL before the start actions run). -/
+def RtCtx.setStrAlloc (c : RtCtx) (σ : CState) (_isStart : Bool) (i : Nat) : CState :=
+  c.onDemandAlloc σ i
 
 def StrBuf.writable (b : StrBuf) : Bool := b.alloc == .inStruct || b.alloc == .heap
 
